@@ -1,6 +1,6 @@
 (** Lemmas about the header codecs of [Model/Headers.v]: little-endian
     primitives, round trips, canonicity, totality. *)
-From RsM Require Import Lib.MachInt Model.Headers.
+From RsM Require Import Lib.MachInt Lib.BitFacts Model.Headers.
 From Coq Require Import ZifyN ZifyBool.
 Open Scope N_scope.
 
@@ -345,11 +345,11 @@ Proof.
     destruct (N.testbit fl 7) eqn:B7; [exists 7; split; [lia|assumption]|].
     exfalso.
     assert (Hlt : fl < 2 ^ 3).
-    { apply RsM.Lib.BitFacts.testbit_lt_pow2. intros j Hj.
+    { apply testbit_lt_pow2. intros j Hj.
       destruct (N.lt_ge_cases j 8) as [Hj8|Hj8].
       - assert (j = 3 \/ j = 4 \/ j = 5 \/ j = 6 \/ j = 7) as [->|[->|[->|[->| ->]]]] by lia;
           assumption.
-      - apply RsM.Lib.BitFacts.lt_pow2_testbit_high with 8; [exact Hb|assumption]. }
+      - apply lt_pow2_testbit_high with 8; [exact Hb|assumption]. }
     change (2 ^ 3) with 8 in Hlt. lia. }
   destruct Hbit as (i & Hi & Hti).
   assert (Ht : N.testbit (N.land fl 248) i = true).
@@ -371,15 +371,15 @@ Proof.
   destruct h as [fl sid sf ctr s d]. cbn [p_flags p_sess p_sec p_ctr p_src p_dst] in *.
   pose proof (msg_flags_ok_lt8 fl Hf Hfo) as H8.
   apply bit_cases_lt8 in H8.
+  apply lt_ltb in Hsid, Hc, Hctr.
   unfold plain_wf.
   destruct (dstk =? 0); destruct src as [sv|]; destruct dst as [dv|];
+    try apply lt_ltb in Hs; try apply lt_ltb in Hd;
     cbn [plain_set_src plain_set_dst_unicast plain_set_dst_groupcast
          p_flags p_sess p_sec p_ctr p_src p_dst];
-    rewrite !(lt_ltb _ _ Hsid), !(lt_ltb _ _ Hc), !(lt_ltb _ _ Hctr), Hco;
+    rewrite Hsid, Hc, Hctr, Hco; try rewrite Hs; try rewrite Hd;
     destruct H8 as [->|[->|[->|[->|[->|[->|[->| ->]]]]]]];
-    vm_compute has_src; vm_compute dsiz_both; vm_compute dsiz_uni; vm_compute dsiz_grp;
-    vm_compute msg_flags_ok; vm_compute N.ltb at 1; cbn [negb andb];
-    try (rewrite !lt_ltb by assumption); reflexivity.
+    vm_compute; reflexivity.
 Qed.
 
 (** * ProtoHdr *)
